@@ -27,7 +27,7 @@ Open Scope Z_scope.
 Definition repeat_unroll_full : Prop :=
   forall f env n body a,
     coh_block false body ->
-    outcome_of (repeat_model (S f) env n body a) = outcome_of (unrolled (S f) env n body a).
+    outcome_of (repeat_model None (S f) env n body a 0) = outcome_of (unrolled None (S f) env n body a 0).
 
 Definition w (v : Z) : item := IWord [Num "n" v true false false].
 
@@ -41,9 +41,26 @@ Qed.
 Print Assumptions repeat_unroll_full_refuted.
 
 Example end_in_body_images :
-  outcome_of (repeat_model 1 (fun _ => None) 2 [w 1; IEnd; w 2] 512) = OOk [1; 0; 1; 0]
-  /\ outcome_of (unrolled 1 (fun _ => None) 2 [w 1; IEnd; w 2] 512) = OOk [1; 0].
+  outcome_of (repeat_model None 1 (fun _ => None) 2 [w 1; IEnd; w 2] 512 0) = OOk [1; 0; 1; 0]
+  /\ outcome_of (unrolled None 1 (fun _ => None) 2 [w 1; IEnd; w 2] 512 0) = OOk [1; 0].
 Proof. split; vm_compute; reflexivity. Qed.
+
+(* 1b. the repetition budget (commit 5b48d07) is a real side condition of repeat_unroll: without the
+   [within] hypotheses the statement is false of the budgeted model, as of the code --
+   '.repeat 65537 { .byte 7 }' is refused, 65537 lines '.byte 7' assemble.  Witness with budget 3. *)
+Definition repeat_unroll_ignoring_budget : Prop :=
+  forall m f env n body a c,
+    has_end body = false -> coh_block false body ->
+    outcome_of (repeat_model (Some m) (S f) env n body a c) = outcome_of (unrolled (Some m) (S f) env n body a c).
+
+Theorem repeat_unroll_ignoring_budget_refuted : ~ repeat_unroll_ignoring_budget.
+Proof.
+  intros H.
+  specialize (H 3 0%nat (fun _ => None) 4%nat [IByte [Num "7" 7 true false false]] 512 0 eq_refl
+                (coh_block_fresh false _ eq_refl)).
+  vm_compute in H. discriminate.
+Qed.
+Print Assumptions repeat_unroll_ignoring_budget_refuted.
 
 (* ---------------------------------------------------------------------------------------------- *)
 (* 2. the pre-fix mechanisms *)
@@ -132,18 +149,18 @@ Section Variant.
     | _ => Crash "not in the witness language"
     end.
 
-  Fixpoint block_v env (its : list item) (a : Z) : result :=
+  Fixpoint block_v env (its : list item) (a c : Z) : result :=
     match its with
-    | [] => Ok ([], [], [])
+    | [] => Ok (([], c), [], [])
     | it :: rest =>
         do x <- compile_item_v env a it; let '(bs, it', d) := x in
-        do y <- block_v env rest (a + Zlen bs); let '(bs2, rest', d2) := y in
-        Ok (bs ++ bs2, it' :: rest', d ++ d2)
+        do y <- block_v env rest (a + Zlen bs) c; let '((bs2, c2), rest', d2) := y in
+        Ok ((bs ++ bs2, c2), it' :: rest', d ++ d2)
     end.
 
-  (* the same threading ([loop]) and the same reference as in the model *)
-  Definition repeat_model_v env (n : nat) body a : result := loop (block_v env) n body a.
-  Definition unrolled_v env (n : nat) body a : result := block_v env (written_out n body) a.
+  (* the same threading ([loop], no budget) and the same reference as in the model *)
+  Definition repeat_model_v env (n : nat) body a : result := loop None (block_v env) n body a 0.
+  Definition unrolled_v env (n : nat) body a : result := block_v env (written_out n body) a 0.
 
   Definition repeat_unroll_v : Prop :=
     forall env n body a, has_end body = false -> coh_block false body ->
@@ -185,8 +202,8 @@ Proof. split; vm_compute; reflexivity. Qed.
 
 (* with both flags off the variant is the model on the witnesses, and the property holds there *)
 Example fixed_variant_is_the_model :
-  outcome_of (repeat_model_v false false env_a 2 mov_body 512) = outcome_of (repeat_model 1 env_a 2 mov_body 512)
-  /\ outcome_of (repeat_model_v false false env_a 3 word_body 512) = outcome_of (repeat_model 1 env_a 3 word_body 512)
+  outcome_of (repeat_model_v false false env_a 2 mov_body 512) = outcome_of (repeat_model None 1 env_a 2 mov_body 512 0)
+  /\ outcome_of (repeat_model_v false false env_a 3 word_body 512) = outcome_of (repeat_model None 1 env_a 3 word_body 512 0)
   /\ outcome_of (repeat_model_v false false env_a 2 mov_body 512) = outcome_of (unrolled_v false false env_a 2 mov_body 512)
   /\ outcome_of (repeat_model_v false false env_a 3 word_body 512) = outcome_of (unrolled_v false false env_a 3 word_body 512).
 Proof. repeat split; vm_compute; reflexivity. Qed.
